@@ -38,7 +38,10 @@ def writeByte (k b : Nat) (file : Bytes) : Bytes := file.take k ++ b :: file.dro
 
 /-- what `pickle.load` may return for a function entry: the current `(value, log)` format or the
 old `(log, fail, value)` format that the code still accepts -/
-inductive Data (V L : Type) | entry (v : V) (l : L) | old (l : L) (fail : Bool) (v : V)
+inductive Data (V L : Type)
+  | entry (v : V) (l : L)
+  | old (l : L) (fail : Bool) (v : V)
+  | illTyped      -- a 2- or 3-tuple whose log component is not a `RecordLog` (garbage that unpickles without error)
 
 /-- result of the wrapped function on the (fixed) argument tuple: value + emitted log, or exception -/
 inductive FRes (V L E : Type) | ret (v : V) (l : L) | exc (e : E) (l : L)
@@ -73,6 +76,7 @@ def lookup (c : Cfg V L E) (file : Bytes) : Lookup V L :=
   | .ok (.entry v l) => .hit v l
   | .ok (.old l false v) => .hit v l
   | .ok (.old _ true _) => if c.caught .unpickling then .miss else .escape .unpickling
+  | .ok .illTyped => if c.caught .unpickling then .miss else .escape .unpickling   -- `if not isinstance(log_, log.RecordLog): raise pickle.UnpicklingError`
   | .error e => if c.caught e then .miss else .escape e
 
 /-- the bytes a run with this nonce dumps for result `(v, l)` -/
@@ -122,7 +126,9 @@ def Outcome.sameAs : Outcome V L E → Outcome V L E → Prop
 /-- result of one `next(resume)` -/
 inductive Next (V L E : Type) | item (v : V) (l : L) | stop (l : L) | exc (e : E) (l : L)
 
-/-- content of an item file: `(log, stop, value)` -/
+/-- content of an item file: `(log, stop, value)`.  For item files `Pickle.load` stands for the whole guarded statement
+`log_, stop, value = pickle.load(f)` *including* the validation `isinstance(log_, RecordLog) and isinstance(stop, bool)`:
+content that unpickles to something ill-typed is `.error .unpickling` (the code raises UnpicklingError for it). -/
 inductive Stored (V L : Type) | item (l : L) (v : V) | stop (l : L)
 
 structure RecCfg (V L E : Type) where
